@@ -63,7 +63,7 @@ def canonicalMask (m : List Nat) : Bool := m == cidrMask (leadingOnes (bitsOf m)
 
 def bytesOk (l : List Nat) : Bool := l.all (· < 256)
 
-/-- A network as `net.ParseCIDR` / `parseIPNet` build it. -/
+/-- A network as `net.ParseCIDR` builds it. -/
 def Cidr.wf (n : Cidr) : Bool :=
   bytesOk n.ip && bytesOk n.mask && canonicalMask n.mask &&
     (n.ip.length == 4 || n.ip.length == 16) && (n.mask.length == 4 || n.mask.length == 16)
@@ -113,21 +113,75 @@ def Tok.ipwf (t : Tok) : Bool :=
 
 def Req.ipwf (r : Req) : Bool := r.peer.ipwf && r.xreal.all Tok.ipwf && r.hops.all Tok.ipwf
 
+/-! ### what the operator configured
+
+"a configured trusted proxy", "addresses on the allow-list": an entry written without a prefix length is
+that one address and nothing else (`2001:db8::1` is not `2001:db8::/32`, `10.0.0.1` is not an IPv6 network,
+`::ffff:10.0.0.1` is the IPv4 host `10.0.0.1`); an entry `a/n` is the network whose first `n` bits are those
+of `a`.  Written on the entries of the configured text, not on what the code made of them. -/
+
+/-- One address and nothing else, in either spelling of an IPv4 address. -/
+def specHostMatches (h ip : List Nat) : Bool :=
+  let a := unmap ip
+  (a.length == 4 || a.length == 16) && a == unmap h
+
+def specEntryMatches : Entry → List Nat → Bool
+  | .host h, ip => specHostMatches h ip
+  | .net c, ip => specContains c ip
+  | _, _ => false
+
+def specListed (es : List Entry) (ip : List Nat) : Bool := es.any (fun e => specEntryMatches e ip)
+
+/-- Entries as the standard-library parsers deliver them. -/
+def Entry.wf : Entry → Bool
+  | .host h => bytesOk h && (h.length == 4 || h.length == 16)
+  | .net c => c.wf
+  | _ => true
+
+def Entry.isBad : Entry → Bool
+  | .bad => true
+  | _ => false
+
+def Entry.isSkip : Entry → Bool
+  | .skip => true
+  | _ => false
+
+/-- The defaults of the statement's world: with nothing configured the private networks
+(loopback, 10/8, 172.16/12, 192.168/16) are trusted and 127.0.0.1 may read the statistics. -/
+def stmtDefaultTrusted : List Entry :=
+  [.net ⟨[127, 0, 0, 0], [255, 0, 0, 0]⟩, .net ⟨[10, 0, 0, 0], [255, 0, 0, 0]⟩,
+   .net ⟨[172, 16, 0, 0], [255, 240, 0, 0]⟩, .net ⟨[192, 168, 0, 0], [255, 255, 0, 0]⟩]
+
+def stmtDefaultAllow : List Entry := [.host [127, 0, 0, 1]]
+
+/-- The configured list as the operator wrote it: nothing written = the default. -/
+def stmtList (es dflt : List Entry) : List Entry :=
+  let l := es.filter (fun e => !e.isSkip)
+  if l.isEmpty then dflt else l
+
 /-! ### Judge: the statement evaluated on what the implementation did
 
-The configuration is taken from what the implementation reports to hold after a
-`new` / `reload` (read from its fields by the harness); whether the implementation
-*derived* that configuration correctly from the configured text is the business of
-the model comparison, not of this property. -/
+The configuration is what the operator *wrote* (the tokenised entries of the `new` / `reload` line, read as
+above) — not what the implementation reports to have made of it: a server that turns the single address
+`2001:db8::1` into a network trusts peers nobody configured, and the requests of such a peer are judged
+against the written list.  A list with an unreadable entry is refused as a whole: at start no server comes
+up (the harness goes on with one that has nothing configured, which is also what it runs a request on
+when a case has no `new` line), on reload the previous list stays. -/
 
 structure Judge where
-  trusted : List Cidr := []
-  allow : List Cidr := []
-  known : Bool := false
+  trusted : List Entry := stmtDefaultTrusted
+  allow : List Entry := stmtDefaultAllow
+
+def Judge.fresh (t a : List Entry) : Judge :=
+  if t.any Entry.isBad || a.any Entry.isBad then {}
+  else { trusted := stmtList t stmtDefaultTrusted, allow := stmtList a stmtDefaultAllow }
+
+def Judge.reload (j : Judge) (t a : List Entry) : Judge :=
+  { trusted := if t.any Entry.isBad then j.trusted else stmtList t stmtDefaultTrusted
+    allow := if a.any Entry.isBad then j.allow else stmtList a stmtDefaultAllow }
 
 def Judge.ip (j : Judge) (nilTrusted : Bool) (r : Req) (implText : String) : String :=
-  if !nilTrusted && !j.known then "na" else
-  let isT : List Nat → Bool := if nilTrusted then fun _ => false else specAllowed j.trusted
+  let isT : List Nat → Bool := if nilTrusted then fun _ => false else specListed j.trusted
   let want := specRealIP isT r
   if implText = want.text then "ok"
   else if !(r.peer.valid && isT r.peer.bytes) then "violated:headers-change-address-of-untrusted-peer"
@@ -135,8 +189,7 @@ def Judge.ip (j : Judge) (nilTrusted : Bool) (r : Req) (implText : String) : Str
 
 def Judge.get (j : Judge) (gated : Bool) (r : Req) (status : Nat) : String :=
   if !gated then "na" else
-  if !j.known then "na" else
-  let want := specAnswer (specAllowed j.trusted) (specAllowed j.allow) r
+  let want := specAnswer (specListed j.trusted) (specListed j.allow) r
   let answered := decide (200 ≤ status ∧ status < 300)
   if answered = want then "ok"
   else if answered then "violated:gated-endpoint-answers-address-not-on-allow-list"
